@@ -119,6 +119,12 @@ def check_stack(ctx, case, e, merr, unpacking):
         s = None
     if s is not None and (not isinstance(s, str) or name not in s):
         ctx.violation(case(sig="str-misses-field", desc="str(e) does not mention %r" % (name,)))
+    try:
+        s2 = str(e)     # rendering is repeatable (log, then re-raise and print again)
+        if s is not None and s2 != s:
+            ctx.violation(case(sig="str-not-repeatable", desc="two renderings of the same PacketError differ"))
+    except Exception as ex:
+        ctx.violation(case(sig="str-raises-second-time:" + type(ex).__name__, desc="the second str(PacketError) raised %r" % (ex,)))
     return name, len(stack)
 
 
